@@ -1,5 +1,6 @@
 import GixModel.Lemmas.C11
 import GixModel.Lemmas.C56Toy
+import GixModel.Lemmas.C11Toy
 /-
 C11 — Loose objects written by gitoxide are git objects and read back exactly.  PROPERTY THEOREMS ONLY.
 
@@ -99,6 +100,29 @@ theorem header_only_small {D : Decompressor} {IsStream : Bytes → Bytes → Pro
     tryHeader D z = .ok body.length k :=
   tryHeader_small K k body z hz hn hsmall
 
+/-- … and, for streams that yield 28 content bytes from their first 192 bytes (`EarlyOutput`, a property of
+how the compressor lays out streams — see `try_header_needs_early_output` for why it is needed), it
+answers for EVERY complete object file, whatever its length. -/
+theorem header_only_complete {D : Decompressor} {IsStream : Bytes → Bytes → Prop} (K : DecompressorOk D IsStream)
+    (E : EarlyOutput D IsStream) (k : Kind) (body z : Bytes) (hz : IsStream z (looseHeader k body.length ++ body))
+    (hn : body.length < 2 ^ 64) : tryHeader D z = .ok body.length k :=
+  tryHeader_complete K E k body z hz hn
+
+-- non-vacuity: the codec of Lemmas/C56Toy.lean has `EarlyOutput`, too
+example (k : Kind) (body : Bytes) (hn : body.length < 2 ^ 64) :=
+  header_only_complete Toy.decompressorOk Toy.earlyOutput k body (Toy.enc (looseHeader k body.length ++ body)) rfl hn
+
+/-- Arbitrary files: on ANY byte content — valid, cut, garbage, a header that advertises fewer or more bytes
+than the stream holds, sizes up to `u64::MAX` — `find_inner` returns `Ok` or `Err`; it never panics (no
+slice index out of range, no arithmetic overflow) and its loop terminates. Needs only what the flate2 API
+guarantees by its types for every call (`DecompressorBounded`). -/
+theorem find_never_panics {D : Decompressor} (hB : DecompressorBounded D) (file : Bytes) :
+    findInner D file ≠ .panic ∧ findInner D file ≠ .outOfFuel :=
+  findInner_no_panic hB file
+
+-- non-vacuity
+example (file : Bytes) := find_never_panics Toy.decompressorBounded file
+
 /-- the loose header decoder inverts the encoder for every kind and every u64 size, whatever follows -/
 theorem header_roundtrip (k : Kind) (n : Nat) (h : n < 2 ^ 64) (rest : Bytes) :
     decodeLooseHeader (looseHeader k n ++ rest) = some (k, n, (looseHeader k n).length) :=
@@ -135,6 +159,31 @@ theorem truncated_was_accepted_before_fix :
     findInnerBefore Stored.decompressor witnessFile.dropLast = .ok .blob (List.replicate 57 120) ∧
     findInner Stored.decompressor witnessFile.dropLast = .err .decompress ∧
     findInner Stored.decompressor witnessFile = .ok .blob (List.replicate 57 120) := by
+  decide +kernel
+
+/-! ### the second repair: headers that lie about the size -/
+
+/-- a stored-block stream of `blob 3\0` followed by 100 bytes: the header advertises 3 bytes, 107 are there -/
+def lyingFile : Bytes :=
+  [120, 1, 1, 107, 0, 148, 255, 98, 108, 111, 98, 32, 51, 0] ++ List.replicate 100 120 ++ [12, 104, 48, 211]
+
+/-- Before the hardening `find_inner` panicked on that file (`&mut output[64..]` of a 10-byte slice); now it
+is a `SizeMismatch` error. -/
+theorem lying_header_panicked_before_fix :
+    findInnerUnhardened Stored.decompressor lyingFile = .panic ∧
+    findInner Stored.decompressor lyingFile = .err .sizeMismatch := by
+  decide +kernel
+
+/-- a VALID zlib stream of `blob 3\0abc` that starts with 40 empty stored blocks (200 bytes without content) -/
+def paddedFile : Bytes :=
+  [120, 1] ++ (List.replicate 40 [0, 0, 0, 255, 255]).flatten ++
+  [1, 10, 0, 245, 255, 98, 108, 111, 98, 32, 51, 0, 97, 98, 99, 17, 217, 3, 25]
+
+/-- Why `header_only_complete` needs `EarlyOutput`: the object is found, but `try_header` — which only looks at
+the first 192 bytes of the file — fails on it (the real code does the same; git reads the object). -/
+theorem try_header_needs_early_output :
+    findInner Stored.decompressor paddedFile = .ok .blob [97, 98, 99] ∧
+    tryHeader Stored.decompressor paddedFile = .err .decode := by
   decide +kernel
 
 end GixModel.Props.C11
